@@ -225,6 +225,9 @@ func partB(run *hx.Run, r *hx.Rand) {
 	// in-process round trips run in the background while B and B2 spawn their processes
 	var b3 *b3Env
 	timed("B3 (sequential part)", on("b3"), func() { b3 = partB3Start(run, r.Fork(6000), b, root) })
+	// B5: declaration sites of extensions (partb5.go); round trips in the background as well
+	var b5 *b3Env
+	timed("B5 (sequential part)", on("b5"), func() { b5 = partB5Start(run, r.Fork(8000), b, root) })
 	tB := time.Now()
 	for i := 0; i < n; i++ {
 		cr := r.Fork(uint64(i))
@@ -255,6 +258,7 @@ func partB(run *hx.Run, r *hx.Rand) {
 		}
 	})
 	timed("B3 (wait for the round trips)", b3 != nil, func() { b3.finish() })
+	timed("B5 (wait for the round trips)", b5 != nil, func() { b5.finish() })
 	// B4: packagings of workspaces that vendor files at well-known-type paths (partb4.go)
 	timed("B4", on("b4"), func() { partB4(run, r.Fork(7000), b, root) })
 	run.Set("buf_process_runs", b.count)
